@@ -78,7 +78,7 @@ def prepare(prop, thorough=False):
     """Tie A + proof obligations.  Never raises for a broken proof: records it."""
     st = ProofStatus()
     os.makedirs(os.path.join(VERIF, '.cache'), exist_ok=True)
-    with open(os.path.join(VERIF, '.lock'), 'w') as lock:
+    with open(os.path.join(LEAN, '..', '.lock') if os.environ.get('SEGNO_VERIF_LEAN') else os.path.join(VERIF, '.lock'), 'w') as lock:
         fcntl.flock(lock, fcntl.LOCK_EX)
         rc, out = run(['/venv/bin/python', os.path.join(VERIF, 'tools', 'gen.py'), REPO, LEAN])
         st.gen = out.strip()[-300:]
@@ -200,12 +200,15 @@ class Result:
         self.distribution[key] = self.distribution.get(key, 0) + n
 
 
+OUT = os.environ.get('SEGNO_VERIF_OUT', VERIF)   # where evidence/ and replays/ go (scratch runs against mutants)
+
+
 def write_replay(prop, kind, payload):
-    os.makedirs(os.path.join(VERIF, 'replays'), exist_ok=True)
+    os.makedirs(os.path.join(OUT, 'replays'), exist_ok=True)
     body = json.dumps(payload, indent=1, sort_keys=True, default=str)
     h = hashlib.sha1(body.encode()).hexdigest()[:12]
     path = os.path.join('replays', f'{prop}-{kind}-{h}.json')
-    with open(os.path.join(VERIF, path), 'w') as f:
+    with open(os.path.join(OUT, path), 'w') as f:
         f.write(body)
     return path
 
@@ -264,8 +267,8 @@ def decide_and_report(prop, tier, seed, st, res, t0, level_text, extra_assumptio
             notes=res.notes, gen=st.gen),
         assumptions=[level_text] + list(extra_assumptions),
         wall_s=round(time.time() - t0, 2), violations=len(real))
-    os.makedirs(os.path.join(VERIF, 'evidence'), exist_ok=True)
-    with open(os.path.join(VERIF, 'evidence', f'{prop}.json'), 'w') as f:
+    os.makedirs(os.path.join(OUT, 'evidence'), exist_ok=True)
+    with open(os.path.join(OUT, 'evidence', f'{prop}.json'), 'w') as f:
         json.dump(ev, f, indent=1, sort_keys=True, default=str)
     for dct in res.corr_diffs[:3]:
         log('CORRESPONDENCE-DIFF ' + json.dumps(dct, default=str)[:600])
